@@ -312,6 +312,15 @@ pub fn main(args: &Args) {
         r
     });
     let mut total = Report::merge_all(reports);
+    if only.is_none() || args.get("fdx").is_some() {
+        // process-wide (descriptor limit), hence after the sharded part, alone
+        let mut r = Report::new();
+        match start(2, "127.0.0.1") {
+            Ok(mut app) => shutlab::fd_exhaustion_scenario(&mut r, &mut app, &["c20".to_string(), "--fdx".into(), "1".into(), "--scenario".into(), "999999".into()]),
+            Err(e) => r.inconclusive(e),
+        }
+        total = Report::merge_all(vec![total, r]);
+    }
     if only.is_some() {
         total.nontrivial(1);
         total.nontrivial(2);
